@@ -62,6 +62,48 @@ def report_trace(res, tier, n, cfgs, relations, seed_mul=49979687):
     res.add("evaluations", total)
 
 
+def _gac(key, op, rhs=None):
+    return {"c": "gac", "q": [{"p": "key", "k": [ord(x) for x in key]}], "all": True, "neg": False, "op": op, "on": False,
+            "rhs": [] if rhs is None else [{"r": "val", "v": {"t": "int", "v": rhs}}]}
+
+
+ALL_SKIP = {"parse": "ok",
+            "prog": {"lets": [], "prules": [],
+                     "rules": [{"n": "never_a", "w": [[_gac("no_such_key_zq", "exists")]], "lets": [], "b": [[_gac("x", "eq", 1)]]},
+                               {"n": "never_b", "w": [[_gac("no_such_key_zq", "exists")]], "lets": [], "b": [[_gac("y", "eq", 1)]]}]},
+            "text": "rule never_a when no_such_key_zq exists {\n  x == 1\n}\nrule never_b when no_such_key_zq exists {\n  y == 1\n}\n"}
+
+
+def cli_partition(res, tier):
+    """the command line's structured report (json / yaml) for 1-3 rules files against one data file: the
+    compliant / not_applicable / not_compliant lists are the PASS / SKIP / FAIL rules of Denote (TraceCli)"""
+    import random
+    import cli, clitrace
+    n = 30 if tier == "quick" else 400
+    rnd = random.Random(seed() + 909)
+    wd = cli.Workdir("c09")
+    tr = os.path.join(WORK, "trace_C09_cli.ndjson")
+    modes = [m for m in clitrace.MODES if m["fmt"] in ("sjson", "syaml")]
+    i = 0
+    with open(tr, "w") as f:
+        for ci, cfg in enumerate(["core", "full"]):
+            pairs = clitrace.gen_pairs(seed() * 8117 + ci, n, cfg)
+            for k in range(0, len(pairs) - 2, 3):
+                nr = 1 + rnd.randrange(3)
+                rules = [{"parse": "ok", "prog": c["prog"], "text": c["rules"]} for c in pairs[k:k + nr]]
+                if k % 2 == 0:
+                    # a rules file all of whose rules are skipped (its names belong in not_applicable)
+                    rules.insert(rnd.randrange(len(rules) + 1), dict(ALL_SKIP))
+                data = [{"load": "ok", "doc": pairs[k]["doc"], "text": pairs[k]["data"]}]
+                for mode in modes:
+                    i += 1
+                    f.write(json.dumps(clitrace.run_job(wd, i, rules, data, [], mode, "files")) + "\n")
+    wd.close()
+    clitrace.judge(res, tr, i)
+    res.add("evaluations", i)
+    os.remove(tr)
+
+
 def run(tier):
     res = Result("C09", tier, "model_checking")
     res.assumptions = ["distinct rule names (the property's quantifier)",
@@ -73,10 +115,12 @@ def run(tier):
     res.add("states", r["distinct"])
     res.add("transitions", r["states"])
     report_trace(res, tier, 1200 if tier == "quick" else 15000, ["core", "full"], ["report", "status", "partition", "full"])
+    cli_partition(res, tier)
     res.cov["rule"] = ("MC_Report: union/status laws over all combinations of three abstract reports; R: random programs - the "
                        "library's structured report must equal GuardReport.Simplify of the record of the same run, obey the "
                        "partition and status laws against the evaluated (rule, status) list; every recorded check (kind, custom message, from, to) "
-                       "equals the one the specification derives")
+                       "equals the one the specification derives; the command line's --structured json / yaml report of 1-3 rules files against "
+                       "a data file lists exactly the PASS / SKIP / FAIL rules of Denote (TraceCli)")
     return res.finish()
 
 
